@@ -552,6 +552,7 @@ class SP(Robot):
             #self.IK(top_plate_pos = self.getBottomT() @ tm([0, 0, self._nominal_height, 0, 0, 0]))
             #self.FK(L, protect = True)
             self._fixUpsideDown()
+            top = self.getTopT()
         self._current_plate_transform_local = fsr.globalToLocal(bottom, top)
         #self._undoPlateTransform(bottom, top)
 
